@@ -72,6 +72,9 @@ def run_shard(rec, tier, seed, shard, nshards):
         for ci in range(n_cases):
             # ------------------------------------------------ ModelEvaluation
             E, T = int(rng.integers(1, 31)), int(rng.integers(1, 13))
+            if ci == 1:
+                E, T = int(rng.choice([257, 1025, 4097])), int(rng.choice([33, 257]))
+                rec.count("evaluation_cases_large")
             pred = rng.random((E, T)) * float(rng.choice([1.0, 1.0, 100.0]))
             obs = rng.random(E)
             if rng.random() < 0.25:
